@@ -51,6 +51,11 @@ def normal_form(t, n_pred):
     return sorted(leaves, key=repr)
 
 
+def callee_written_is_new(x):
+    """The term is the nested view: a call of MemoryMapped::new (as written or resolved)."""
+    return (len(x) > 4 and x[4] == "serialize::MemoryMapped::new") or x[1].endswith("MemoryMapped<'a>>::new") or x[1] == "serialize::MemoryMapped::new"
+
+
 def check(ctx):
     configs = ["native"] if ctx.tier == "quick" else ["native", "portable", "native-rel", "portable-rel"]
     for cfg in configs:
@@ -80,7 +85,7 @@ def check_config(ctx, F, tag):
             if len(frp) != 1:
                 raise Undecided("%s::new: expected one from_raw_parts" % name)
             # run the R1 pass again to obtain the guard term
-            facts = facts_at(b, frp[0]["block"])
+            facts = mapped.view_facts(b, frp[0]["block"])
             n = strip_casts(frp[0]["count"])
             guard = None
             for f in facts:
@@ -133,6 +138,10 @@ def check_config(ctx, F, tag):
             if name == "serialize::MappedOption":
                 okm = self_path(mo.term_of_local(0)) == ["offset"]
                 oklen = m(Bin("Add", SelfField("data_len"), Const(1)), ml.term_of_local(0))
+                if not oklen:
+                    from guards import canon
+                    # the constant spelled through its accessor (`absent_option_size() + self.data_len`)
+                    oklen = m(Bin("Add", ("field", ("param", 0), "data_len"), Const(1)), canon(F, ml.term_of_local(0)))
                 # data_len is the element read at offset, and the owned header element is value.size_in_elements()
                 aggs = [(bi, st) for bi, si, st in b.stmts() if st["s"] == "assign" and st["rv"]["r"] == "agg" and st["rv"].get("def") == name]
                 okd = len(aggs) >= 1
@@ -166,6 +175,17 @@ def check_config(ctx, F, tag):
             else:
                 okm = m(Bin("Sub", Call(lambda n_: n_.endswith("::map_offset"), SelfField("data")), Const(k)), mo.term_of_local(0))
                 oklen = m(Bin("Add", Call(lambda n_: n_.endswith("::map_len"), SelfField("data")), Const(k)), ml.term_of_local(0))
+                # ... or the two values are computed once in `new` and kept in fields: the getter returns the field, and the
+                # constructor stores the offset parameter, resp. k + (nested view).map_len(), into it
+                aggs_ = [st for bi, si, st in b.stmts() if st["s"] == "assign" and st["rv"]["r"] == "agg" and st["rv"].get("def") == name]
+                if len(aggs_) == 1:
+                    ops_ = dict(zip(aggs_[0]["rv"]["fields"], aggs_[0]["rv"]["ops"]))
+                    pm, pl_ = self_path(mo.term_of_local(0)), self_path(ml.term_of_local(0))
+                    if not okm and pm and len(pm) == 1 and pm[0] in ops_:
+                        okm = core(b.term_of_operand(ops_[pm[0]]))[:2] == ("param", 1)
+                    if not oklen and pl_ and len(pl_) == 1 and pl_[0] in ops_:
+                        oklen = m(Bin("Add", Const(k), Call(lambda n_: n_.endswith("::map_len"), ANY)), b.term_of_operand(ops_[pl_[0]])) and \
+                            any(x[0] == "call" and callee_written_is_new(x) for x in subterms(b.term_of_operand(ops_[pl_[0]])))
                 ok = reads_ok and nest_ok and wr_ok and okm and oklen
                 detail = "reads header elements at offsets %s (k=%d); nested view at offset+%d: %s; %s::serialize_header writes %d scalar element(s) before the nested part; map_offset = nested - %d: %s; map_len = nested + %d: %s" % (
                     consts, k, k, nest_ok, owned.split("::")[-1], len(scalars), k, okm, k, oklen)
